@@ -17,7 +17,7 @@ Open Scope list_scope.
    expression whose `value` has one of the collector's shapes (classify_ast), each with its own position. *)
 Theorem C17_collect_exact : forall k e t ents,
   visit k e = Ok (t, ents) ->
-  convert false e = Ok t /\ ents = collect k e /\
+  convert e = Ok t /\ ents = collect k e /\
   forall ent, In ent ents <->
               exists p v a ap, subexpr (EAttribute p v a ap) e /\ In ent (classify_ast k v a ap).
 Proof.
@@ -27,7 +27,7 @@ Proof.
 Qed.
 
 (* a collector fails exactly when the converter fails (then the formula is left alone) *)
-Theorem C17_collector_rejects_iff : forall k e, is_ok (visit k e) = is_ok (convert false e).
+Theorem C17_collector_rejects_iff : forall k e, is_ok (visit k e) = is_ok (convert e).
 Proof. exact visit_is_ok. Qed.
 
 (* Arbitrary attribute chains  name.a1.a2...an  (positions p1...pn). *)
@@ -84,9 +84,9 @@ Proof. reflexivity. Qed.
 
 (* ------------------------------------------------------------------------------------------------- *)
 (* 2. Renaming commutes with conversion: the tree of the renamed expression is the old tree with exactly the
-   collected references renamed (for the code as it is and for the repaired converter of C40). *)
-Theorem C17_rename_commutes : forall strict k (r : renamer) e,
-  convert strict (rename_ast k r e) = map_cres (rename_tree k r) (convert strict e).
+   collected references renamed. *)
+Theorem C17_rename_commutes : forall k (r : renamer) e,
+  convert (rename_ast k r e) = map_cres (rename_tree k r) (convert e).
 Proof. exact rename_commutes_lemma. Qed.
 
 (* The renamers of the three callers rename a reference only when its table matches: rec.X of an ACL rule
@@ -141,28 +141,10 @@ Proof. vm_compute. repeat split; reflexivity. Qed.
    the text is not even a module ([dollar_ok = false]: get_dollar_replacer raises), or not an expression
    ([ast = None]), or the converter rejects it. *)
 Definition unparsable (dollar_ok : bool) (ast : option expr) : Prop :=
-  dollar_ok = false \/ ast = None \/ exists e, ast = Some e /\ is_ok (convert false e) = false.
+  dollar_ok = false \/ ast = None \/ exists e, ast = Some e /\ is_ok (convert e) = false.
 
-Definition C17_unparsable_untouched_statement (repaired : bool) : Prop :=
-  forall k r formula dollar_ok dollars ast,
-    unparsable dollar_ok ast -> process_renames repaired k r formula dollar_ok dollars ast = PRText formula.
-
-(* What holds of the code as it is: untouched whenever the $-replacer itself could parse the text. *)
-Theorem C17_unparsable_untouched_partial : forall k r formula dollars ast,
-  unparsable true ast -> process_renames false k r formula true dollars ast = PRText formula.
-Proof.
-  intros k r formula dollars ast [H|[H|[e [-> H]]]]; [discriminate | subst; reflexivity |].
-  apply process_renames_rejected. exact H.
-Qed.
-
-(* The full statement is false for the code as it is: the SyntaxError of get_dollar_replacer escapes. *)
-Theorem C17_unparsable_untouched_refuted : ~ C17_unparsable_untouched_statement false.
-Proof.
-  intros H. specialize (H ACL (fun _ _ _ => None) (lit "rec.A ==") false [] None (or_introl eq_refl)). discriminate.
-Qed.
-
-(* With the proposed repair (notes/proposed_fixes/C17-unparsable-formula.diff) it holds. *)
-Theorem C17_unparsable_untouched_repaired : C17_unparsable_untouched_statement true.
+Theorem C17_unparsable_untouched : forall k r formula dollar_ok dollars ast,
+  unparsable dollar_ok ast -> process_renames k r formula dollar_ok dollars ast = PRText formula.
 Proof.
   intros k r formula dollar_ok dollars ast [H|[H|[e [-> H]]]].
   - subst. reflexivity.
@@ -170,14 +152,21 @@ Proof.
   - destruct dollar_ok; [apply process_renames_rejected; exact H | reflexivity].
 Qed.
 
+(* Regression example: the stored formula  rec.A ==  (not even a module: get_dollar_replacer raises), on which
+   process_renames let the SyntaxError escape before fix commit 8212ac8, is returned unchanged. *)
+Example C17_regression_unparsable :
+  process_renames ACL (acl_renamer [(lit "T", lit "AA", lit "X")] (Some (lit "T")) []) (lit "rec.A ==") false [] None
+  = PRText (lit "rec.A ==").
+Proof. reflexivity. Qed.
+
 (* ------------------------------------------------------------------------------------------------- *)
 (* 5. Text.  A formula in which the renamer hits no collected reference is returned character for character. *)
-Theorem C17_nothing_to_rename_text_unchanged : forall repaired k r formula dollars e t ents,
+Theorem C17_nothing_to_rename_text_unchanged : forall k r formula dollars e t ents,
   visit k e = Ok (t, ents) ->
   (forall x, In x ents -> r (e_type x) (e_name x) (e_extra x) = None) ->
-  process_renames repaired k r formula true dollars (Some e) = PRText formula.
+  process_renames k r formula true dollars (Some e) = PRText formula.
 Proof.
-  intros repaired k r formula dollars e t ents Hv Hr. unfold process_renames. cbn [negb]. rewrite Hv.
+  intros k r formula dollars e t ents Hv Hr. unfold process_renames. cbn [negb]. rewrite Hv.
   rewrite (rename_patches_no_hit r dollars ents Hr). reflexivity.
 Qed.
 
@@ -190,11 +179,11 @@ Definition ex17_ast : expr :=
 Example C17_nonvacuous :
   let rs := [(lit "T", lit "A", lit "Zed")] in
   undollar_text (lit "$A == rec.A") [0] = lit "rec.A == rec.A" /\
-  process_renames false ACL (acl_renamer rs (Some (lit "T")) []) (lit "$A == rec.A") true [0] (Some ex17_ast)
+  process_renames ACL (acl_renamer rs (Some (lit "T")) []) (lit "$A == rec.A") true [0] (Some ex17_ast)
     = PRText (lit "$Zed == rec.Zed") /\
-  process_renames false ACL (acl_renamer rs (Some (lit "C")) []) (lit "$A == rec.A") true [0] (Some ex17_ast)
+  process_renames ACL (acl_renamer rs (Some (lit "C")) []) (lit "$A == rec.A") true [0] (Some ex17_ast)
     = PRText (lit "$A == rec.A") /\
-  convert false (rename_ast ACL (acl_renamer rs (Some (lit "T")) []) ex17_ast)
+  convert (rename_ast ACL (acl_renamer rs (Some (lit "T")) []) ex17_ast)
     = Ok (TCmp OpEq (TAttr (TName (lit "rec")) (lit "Zed")) (TAttr (TName (lit "rec")) (lit "Zed"))) /\
   unparsable false None /\ unparsable true (Some (EUnsupported (1, 0) (lit "Lambda"))).
 Proof.
